@@ -790,6 +790,11 @@ func (l *layout) level1RangesOverlap() bool {
 func observeFamily(family kv.Family, metricIDs []uint32, fieldsOf func(uint32) field.Metas, querySeries *roaring.Bitmap, known bool) (*state, *layout, error) {
 	snap := family.GetSnapshot()
 	defer snap.Close()
+	return observeSnapshot(snap, metricIDs, fieldsOf, querySeries, known)
+}
+
+// observeSnapshot reads everything one (caller owned) snapshot shows.
+func observeSnapshot(snap version.Snapshot, metricIDs []uint32, fieldsOf func(uint32) field.Metas, querySeries *roaring.Bitmap, known bool) (*state, *layout, error) {
 	out := newState()
 	for _, id := range metricIDs {
 		if err := observeMetric(snap, id, fieldsOf(id), querySeries, out, known); err != nil {
